@@ -38,6 +38,7 @@ type c05Block struct {
 	PV     int64   `json:"pv"`
 	Castor int     `json:"c"`
 	Txs    []c05Tx `json:"txs,omitempty"`
+	Skip   uint64  `json:"skip,omitempty"` // height slots skipped by this block
 	ReTx   int     `json:"retx,omitempty"` // re-use the transactions of block ReTx-1 (sibling containing the same txs)
 }
 
@@ -88,6 +89,9 @@ func (c05) Gen(seed uint64, tier string) json.RawMessage {
 		for i := 0; i < L; i++ {
 			q := uint64(r.Range(1, 3))
 			p.Blocks = append(p.Blocks, c05Block{Parent: i - 1, QN: q, PV: int64(r.Range(1, 4)), Castor: r.Intn(2)})
+			if r.Chance(0.2) {
+				p.Blocks[i].Skip = uint64(r.Range(1, 2))
+			}
 			if r.Chance(0.5) {
 				p.Blocks[i].Txs = []c05Tx{{From: r.Intn(4), To: r.Intn(6), Amount: fmt.Sprintf("%d", r.Range(1, 50))}}
 			}
@@ -97,6 +101,9 @@ func (c05) Gen(seed uint64, tier string) json.RawMessage {
 		}
 		d := r.Intn(L) // the competing block replaces blocks d..L-1
 		comp := c05Block{Parent: d - 1, QN: qsum[d] + uint64(r.Intn(2)), PV: int64(r.Range(2, 7)), Castor: r.Intn(2)}
+		if r.Chance(0.4) {
+			comp.Skip = uint64(r.Range(1, 3)) // lands on a height the old branch used differently (or not at all)
+		}
 		if r.Chance(0.3) && len(p.Blocks[d].Txs) > 0 {
 			comp.ReTx = d + 1 // carries the same transactions as the block it replaces
 		} else if r.Chance(0.5) {
@@ -150,6 +157,9 @@ func (c05) Gen(seed uint64, tier string) json.RawMessage {
 		}
 		depth = append(depth, d)
 		b := c05Block{Parent: parent, QN: uint64(r.Range(1, 3)), PV: int64(r.Range(1, 4)), Castor: r.Intn(2)}
+		if r.Chance(0.15) {
+			b.Skip = uint64(r.Range(1, 2))
+		}
 		if r.Chance(0.25) {
 			b.PV = 2 // equal prove values: hash tie-break
 		}
@@ -238,7 +248,7 @@ func c05BuildTree(p *c05Plan, st *simrt.Stats) ([]*c05Node, *simdisk.Disk, *type
 		}
 		d := base.Clone()
 		n := node.Boot(d, forks, false)
-		bs := node.BlockSpec{QN: spec.QN, PV: spec.PV, Castor: spec.Castor, TimeMs: int64(1000 * (i + 1))}
+		bs := node.BlockSpec{QN: spec.QN, PV: spec.PV, Castor: spec.Castor, TimeMs: int64(1000 * (i + 1)), Skip: spec.Skip}
 		if spec.ReTx > 0 && tree[spec.ReTx-1] != nil {
 			for _, tx := range tree[spec.ReTx-1].block.Transactions {
 				c := *tx
@@ -350,7 +360,7 @@ func c05Structure(n *node.Node, k *c05Known, ev int, when string, live bool) *si
 		if pb == nil || pb.Header == nil {
 			return viol("head-not-linked-to-genesis", "block %x at height %d: parent %x is not in the hash index", cur.Hash.Bytes()[:6], cur.Height, cur.PreHash.Bytes()[:6])
 		}
-		if pb.Header.Height+1 != cur.Height || steps > 64 {
+		if pb.Header.Height >= cur.Height || steps > 64 {
 			return viol("head-not-linked-to-genesis", "parent of height %d has height %d", cur.Height, pb.Header.Height)
 		}
 		cur = pb.Header
@@ -370,6 +380,24 @@ func c05Structure(n *node.Node, k *c05Known, ev int, when string, live bool) *si
 		}
 		if _, err := n.Chain.GetVerifyHash(bh.Height); err != nil {
 			return viol("verify-hash-missing", "no verify hash for canonical height %d", bh.Height)
+		}
+	}
+	// (2b) height slots the canonical chain skipped are not indexed (stale entries of an abandoned branch)
+	for h := uint64(1); h < H.Height; h++ {
+		onChain := false
+		for _, bh := range chain {
+			if bh.Height == h {
+				onChain = true
+			}
+		}
+		if onChain {
+			continue
+		}
+		if core.SimHeightIndexed(h) {
+			return viol("height-index-wrong", "height %d is indexed but the canonical chain has no block at that height", h)
+		}
+		if c := n.Chain.QueryBlockHeaderByHeight(h, true); c != nil {
+			return viol("height-cache-wrong", "height %d answers %x from the cache but the canonical chain has no block at that height", h, c.Hash.Bytes()[:6])
 		}
 	}
 	// (3) nothing above the head
